@@ -270,11 +270,22 @@ def run(tier, seed):
             if not fn:
                 continue
             M = Matcher(fn)
+            F = ctx.facts(fn)
             n = 0
             for c in fn.insts():
-                if c.op == "call" and any(mod.const_string(M.strip(a, ("bitcast",))) == lit for a in c.ops):
-                    n += 1
-                    guarded_site(rep, rid, ctx, c, [("%s(...) != 0" % callee, ("ne", ("call", callee), 0))])
+                if c.op != "call":
+                    continue
+                for a in c.ops:
+                    # the literal may reach the argument directly or through a local (phi): each flow carries the facts of its own edge
+                    for sv, fs in F.sources(a):
+                        if mod.const_string(M.strip(sv, ("bitcast",))) != lit:
+                            continue
+                        n += 1
+                        facts = set(fs) | set(F.at_inst(c))
+                        f, _ = M.find_fact(("ne", ("call", callee), 0), facts)
+                        rep.check(rid, f is not None, "%s: %r is passed to %s only under %s(...) != 0" % (fn_name, lit.decode(), mod.callee_cname(c), callee), c.where(),
+                                  describe_fact(fn, f) if f is not None else "the literal reaches the call on a flow without the success fact; facts: %s" % sorted(describe_fact(fn, x) for x in facts)[:8],
+                                  function=fn_name, obj="literal-" + lit.decode())
             if n == 0:
                 rep.broken(rid, "literal %r not found in %s" % (lit, fn_name))
         # the literals appear nowhere else
